@@ -50,8 +50,8 @@ m("C05", "extend-appends-unconverted", "odml/property.py",
   "        self._values.extend([dtypes.get(v, self.dtype) for v in new_value])\n",
   "        self._values.extend(new_value)\n")
 m("C05", "time-keeps-microseconds", "odml/dtypes.py",
-  "    if isinstance(string, dt.time):\n        return dt.datetime.strptime(string.strftime(FORMAT_TIME), FORMAT_TIME).time()\n",
-  "    if isinstance(string, dt.time):\n        return string\n")
+  "        # Drop the sub-second part and any time zone.\n        return dt.time(string.hour, string.minute, string.second)\n",
+  "        return string\n")
 m("C05", "values-setter-keeps-inferred-dtype", "odml/property.py",
   "            # A refused assignment must not leave an inferred dtype behind.\n            self._dtype = old_dtype\n",
   "")
